@@ -166,7 +166,17 @@ def task_shape(r, p, c, dup=False, aslist=False):
             res["violations"].append(dict(key="matrix", desc="compositions %s (first %d are reactants): matrix handed to the solver is %s" % (cc, r, pth.value.rows),
                                           replay_src=REPLAY_MATRIX % dict(comps=pyrepr(cc), nr=r, kw=repr({"allow_duplicates": True} if dup else {}), aslist=aslist)))
             continue
-        res["violations"].append(dict(key="precheck:%s" % pth.kind, soft=wrapper_exc(pth.value),
+        if wrapper_exc(pth.value):
+            # the code left the symbolic domain before the matrix was handed over (e.g. it stores the entries in a typed array): the
+            # matrix obligation is decided at a concrete NON-INTEGER witness instead (soft: reported only if the replay reproduces)
+            from fractions import Fraction as _F
+            if all(_F(v).denominator == 1 for d in cc for v in d.values()):
+                cc = [{k: (_F(v) + _F(1, 2) if _F(v) != 0 else v) for k, v in d.items()} for d in cc]
+            res["violations"].append(dict(key="matrix:wrapper", soft=True,
+                                          desc="compositions %s (first %d are reactants): %r before the matrix was handed to the solver" % (cc, r, pth.value),
+                                          replay_src=REPLAY_MATRIX % dict(comps=pyrepr(cc), nr=r, kw=repr({"allow_duplicates": True} if dup else {}), aslist=aslist)))
+            continue
+        res["violations"].append(dict(key="precheck:%s" % pth.kind, soft=False,
                                       desc="compositions %s (first %d are reactants): %r although x=%s balances" % (cc, r, pth.value, xv),
                                       replay_src=REPLAY % dict(comps=pyrepr(cc), nr=r, xs=pyrepr(xv), kw=repr({"allow_duplicates": True} if dup else {}), aslist=aslist)))
     res["status"] = "violation" if res["violations"] else ("inconclusive" if res["inconclusive"] else "discharged")
